@@ -106,6 +106,8 @@ def check(ctx) -> None:
     ctx.rule("C11.fields", "FIELD-COMPLETE: ExecutionTrace.merge reads every dataclass field of the other trace", floor=9)
     ctx.rule("C11.join", "every coverage-relevant field is combined on EVERY path of merge by its commutative, associative, monotone join (union / sum / min) applied to the receiver's own container; never replaced", floor=6)
     ctx.rule("C11.min", "the minimum rule reads the accumulator with an `inf` default and the same mapping/key it writes (merge side and recording side)", floor=5)
+    ctx.rule("C11.laws", "ABSINT: merge interpreted over representative traces: the argument is left untouched, coverage fields commute and never shrink, assertion positions are shifted by the receiver's instruction count", floor=6)
+    _merge_laws(ctx, repo)
     ctx.rule("C11.fold", "analyze_results starts from a fresh ExecutionTrace, visits every result, and only merges", floor=4)
 
     et = repo.cls(TR, "ExecutionTrace")
@@ -203,3 +205,70 @@ def check(ctx) -> None:
     ctx.analysed(it)
     alias = [n for n in own_nodes(it) if isinstance(n, ast.Assign) and norm(n.value) == "self._import_trace"]
     ctx.check("C11.fold", it, not alias and any(isinstance(n, ast.Call) and last_attr(n) == "merge" for n in own_nodes(it)), "init_trace aliases the import trace instead of merging it into a fresh trace: executions would accumulate into the shared import trace", what="init_trace copies the import trace by merge", stmt="[init_trace]")
+
+
+def _merge_laws(ctx, repo) -> None:
+    import copy
+
+    from sa.checks.c07 import OSet
+    from sa.engine import peval
+
+    cls = repo.cls(TR, "ExecutionTrace")
+    fn = repo.methods(cls).get("merge")
+    if fn is None:
+        raise AnalysisError("anchor vanished: ExecutionTrace.merge")
+    ctx.analysed(fn)
+    tmod = repo.module(TR)
+    cres = peval.repo_class_resolver(repo, only={"ExecutionTrace", "ExecutedAssertion"})
+
+    def interp():
+        return peval.Interp(resolver=peval.repo_resolver(repo), class_resolver=cres, externs={"OrderedSet": OSet}, native_types=(OSet,))
+
+    def assertion(it, pos, label):
+        return it.instantiate("ExecutedAssertion", cres("ExecutedAssertion", tmod), [pos, label], {})
+
+    def trace(it, spec):
+        code, preds, td, fd, lines, instrs, asserts, checked = spec
+        return it.instantiate("ExecutionTrace", cres("ExecutionTrace", tmod), [], {
+            "executed_code_objects": OSet(code), "executed_predicates": dict(preds), "true_distances": dict(td), "false_distances": dict(fd), "covered_line_ids": OSet(lines),
+            "executed_instructions": list(instrs), "object_addresses": OSet(), "executed_assertions": [assertion(it, p, l) for p, l in asserts], "checked_lines": OSet(checked)}, init=False)
+
+    def snapshot(t):
+        f = t.fields
+        return (sorted(f["executed_code_objects"]), dict(f["executed_predicates"]), dict(f["true_distances"]), dict(f["false_distances"]), sorted(f["covered_line_ids"]),
+                list(f["executed_instructions"]), [(a.fields["trace_position"], a.fields["assertion"]) for a in f["executed_assertions"]], sorted(f["checked_lines"]))
+
+    A = ([], {}, {}, {}, [3], ["i0", "i1", "i2"], [(1, "a-assert")], [3])                                  # line-only style trace: no code objects recorded
+    B = ([1], {0: 2}, {0: 0.0}, {0: 1.5}, [1, 2], ["j0", "j1"], [(0, "b-first"), (1, "b-second")], [1])
+    C = ([1, 2], {0: 1, 1: 1}, {0: 4.0, 1: 0.0}, {0: 0.0, 1: 2.0}, [2, 5], ["k0"], [(0, "c-assert")], [5])
+    specs = {"A": A, "B": B, "C": C}
+    cov = (0, 1, 2, 3, 4, 7)
+    try:
+        # L1: the argument is left untouched (merging it a second time elsewhere must see the same trace)
+        for x, y in (("A", "B"), ("B", "C"), ("C", "A")):
+            it = interp()
+            tx, ty = trace(it, specs[x]), trace(it, specs[y])
+            before = snapshot(ty)
+            tx.methods["merge"](ty)
+            after = snapshot(ty)
+            ctx.check("C11.laws", fn, before == after, f"[pure {x}.merge({y})]: the merged-in trace changed from {before[6]} / ... to {after[6]} / ...: traces cached in execution results are corrupted, every later evaluation of the suite shifts them again", what=f"[pure {x}.merge({y})]: argument unchanged", stmt=f"[pure {x}.merge({y})]")
+            # L4: positions
+            shift = len(specs[x][5])
+            want = specs[x][6] + [(p + shift, l) for p, l in specs[y][6]]
+            got = snapshot(tx)[6]
+            ctx.check("C11.laws", fn, got == want, f"[positions {x}.merge({y})]: assertion positions after the merge are {got}, expected {want} (the other trace's positions shifted by the {shift} instructions already there)", what=f"[positions {x}.merge({y})]", stmt=f"[positions {x}.merge({y})]")
+        # L2/L3: commutative and monotone on the coverage fields, whatever the receiver holds
+        for x, y in (("A", "B"), ("B", "C"), ("A", "C")):
+            it = interp()
+            t1, t2 = trace(it, specs[x]), trace(it, specs[y])
+            t1.methods["merge"](trace(it, specs[y]))
+            t2.methods["merge"](trace(it, specs[x]))
+            s1, s2 = snapshot(t1), snapshot(t2)
+            same = all(s1[i] == s2[i] for i in cov)
+            sx = snapshot(trace(it, specs[x]))
+            grows = set(sx[0]) <= set(s1[0]) and set(sx[4]) <= set(s1[4]) and set(sx[7]) <= set(s1[7]) and all(s1[2].get(k, 9e9) <= v for k, v in sx[2].items()) and all(s1[3].get(k, 9e9) <= v for k, v in sx[3].items()) and all(s1[1].get(k, 0) >= v for k, v in sx[1].items())
+            ctx.check("C11.laws", fn, same and grows, f"[commute {x},{y}]: {x}.merge({y}) gives {[s1[i] for i in cov]}, {y}.merge({x}) gives {[s2[i] for i in cov]}; nothing of {x} lost: {grows}", what=f"[commute {x},{y}]: order-independent and monotone", stmt=f"[commute {x},{y}]")
+    except peval.Undecided as exc:
+        ctx.undecide("C11.laws", fn, str(exc))
+    except peval.Raises as exc:
+        ctx.fail("C11.laws", fn, f"merge raises {exc.name} ({exc.detail[:60]}) on a representative trace", stmt="[merge raises]")
